@@ -37,3 +37,6 @@ char *g_enc_out; int g_enc_rc;
 
 /* jwt_header_* / jwt_claim_* wrapper units: which doer ran, on which object, with which argument, with what answer */
 int g_doer_kind, g_doer_ret; const struct json_t *g_doer_which; const void *g_doer_arg;
+
+/* jwks_process unit: sequence records for the arbitrary position g_seq_k */
+unsigned g_p1_calls, g_add_calls, g_seq_k; const struct json_t *g_p1_arg_k; const struct jwk_item *g_p1_ret_k, *g_add_item_k;
